@@ -295,9 +295,9 @@ def compare(code, expected, result):
 # ------------------------------------------------------------------------------------------------
 # dimension alphabets (C10)
 
-TARGETS = [None, '"t"', '"my_app::net"', '"a,b;c d"', '"//host/x"', '" sp /* c */"']
+TARGETS = [None, '"t"', '"my_app::net"', '"a,b;c d"', '"//host/x"', '" sp /* c */"', '"q\\"uote"']
 KV_SHAPES = ['k = 1', 'k = "v"', 'k = "a;b,c"', 'k = x', 'k', 'k:? = x', 'k:% = x', 'k:debug = x', 'k:display', 'k:err = e',
-             'k:sval = x', 'k:serde = x']
+             'k:sval = x', 'k:serde = x', 'k = "q\\"uote"', 'k = "path\\\\"']
 MESSAGES = ['plain', '{} {}', '{name:?}', 'say \\"hi\\"', 'é名😀', 'mid [ref: 12] text', ' leading blank', '\\tleading escape',
             '//host/path', '/* x */ y', '', '{{x}}', 'ends \\\\']
 TRAILING = ['', ', x', ', x, y', ', a = 1', ', "lit"', ',']
